@@ -147,6 +147,9 @@ def builders(tier='quick', seed=0):
         B = [np.array(p) for p in ((x, y, z), (-y, x, z), (-x, -y, z), (y, -x, z))]
         return _entry('P4-chiral', C(np.diag([1., 1., 1.2]), [[np.zeros(3)], B], chemistry=['A', 'B']), nshell=2)
     add('P4-chiral', P4chiral)
+    # one host chemistry on two inequivalent sites (two Wyckoff sets of the same species) with a mobile species in between
+    add('host-2wyckoff+X', lambda: _entry('host-2wyckoff+X', C(np.diag([1., 1., 1.3]), [[np.zeros(3), np.array([.5, .5, .42])], [np.array([.5, 0, .2]), np.array([0, .5, .2])]],
+                                                               chemistry=['A', 'X']), chem=1, nshell=2, interstitial=True))
     if tier == 'thorough':
         add('mono-P2/m', lambda: monoP2m(False))
         add('HCP-rotated', lambda: _entry('HCP-rotated', C(rot3() @ HEX * np.array([1, 1, 1.633 / 1.6]), [[np.array([1 / 3, 2 / 3, .25]), np.array([2 / 3, 1 / 3, .75])]], chemistry=['A'])))
